@@ -102,7 +102,7 @@ def execute(scenario, seed, overrides=None):
             if rsock.owner.name != "B":
                 return
             hm = model["m"]
-            msg, eff = hm.on_rx(t, rsock.label, data)
+            msg, eff = hm.on_rx(t, rsock.label, data, src=addr)
             if eff is None:
                 return
             m = hm.cache
